@@ -544,7 +544,10 @@ def deltaStream (delta : Int) (s : Stream) : Stream :=
 
 /-- `processSettingsNoWrite` on one setting; `none` = connection error. -/
 def applySetting (st : State) (seenMax : Bool) (p : Nat × Nat) : Option (State × Bool) :=
-  if p.1 = sMaxFrameSize then some ({ st with maxFrameSize := p.2 }, seenMax)
+  if p.1 = sMaxFrameSize then
+    -- RFC 9113 section 6.5.2: outside [2^14, 2^24) is a connection error (PROTOCOL_ERROR)
+    if p.2 < 16384 ∨ p.2 > 16777215 then none
+    else some ({ st with maxFrameSize := p.2 }, seenMax)
   else if p.1 = sMaxConcurrentStreams then some ({ st with maxConcurrent := p.2 }, true)
   else if p.1 = sInitialWindowSize then
     if p.2 > 2147483647 then none
@@ -703,10 +706,10 @@ def peer (st : State) : PFrame → State × List Frame
 /-! ## Well-formed operations
 
 What the theorems assume about the environment: a request always has a non-empty header
-block (`encodeHeaders` emits at least the pseudo-header fields), the peer's
-SETTINGS_MAX_FRAME_SIZE is inside the range RFC 9113 section 6.5.2 allows (the client does not
-validate it: a value of 0 makes `writeHeaders` loop forever — C07's subject), and a
-WINDOW_UPDATE increment is a 31-bit number (the frame parser masks the reserved bit). -/
+block (`encodeHeaders` emits at least the pseudo-header fields) and a WINDOW_UPDATE increment is
+a 31-bit number (the frame parser masks the reserved bit). Nothing is assumed about the peer's
+SETTINGS: a SETTINGS_MAX_FRAME_SIZE outside the range RFC 9113 section 6.5.2 allows is rejected
+by `processSettingsNoWrite` (since C07's repair) and by `applySetting`. -/
 
 /-- a caller fingerprint that advertises legal values: SETTINGS_INITIAL_WINDOW_SIZE and the
 connection window (65535 + the initial WINDOW_UPDATE) do not exceed 2^31-1 -/
@@ -715,7 +718,6 @@ def Cfg.ok (cfg : Cfg) : Prop :=
   connFlowAdvertised cfg.connFlow + 65535 ≤ 2147483647
 
 def PFrame.ok : PFrame → Prop
-  | .settings vals => ∀ p ∈ vals, p.1 = sMaxFrameSize → 16384 ≤ p.2
   | .windowUpdate _ inc => inc ≤ 2147483647
   | _ => True
 
